@@ -12,13 +12,13 @@ func init() { register("C11", "model_checking", checkC11) }
 
 var (
 	c11Iface    = []string{"plain", "embeds", "otherpkg"}
-	c11Impl     = []string{"valuerecv", "ptrrecv", "none", "itself", "wider"}
+	c11Impl     = []string{"valuerecv", "ptrrecv", "none", "itself", "wider", "own-methods-only"}
 	c11Conc     = []string{"T", "*T"}
 	c11Provided = []string{"func", "struct", "value", "param", "field", "nested-in-bind-set", "outer-only", "sibling-only"}
 )
 
 // bindProgram builds one point of the binding matrix. It returns nil for inexpressible points.
-func bindProgram(ifk, impl, conc, how, nI, nC int, noBinding bool) *ir.Program {
+func bindProgram(ifk, impl, conc, how, nI, nC int, noBinding bool, depth, order int) *ir.Program {
 	b := ir.NewBuilder()
 	p := b.Root
 	ip := p
@@ -51,6 +51,14 @@ func bindProgram(ifk, impl, conc, how, nI, nC int, noBinding bool) *ir.Program {
 		named.PtrRecv = true
 	case 2:
 		// implements nothing
+	case 5:
+		// declares the interface's own methods but not those of the embedded interface
+		if ifk != 1 {
+			return nil
+		}
+		named.Impls = []*ir.Type{iface}
+		named.Partial = true
+		named.PtrRecv = conc == 1
 	case 3:
 		// bind the interface to itself; the interface is provided by a function
 		if conc == 1 || how != 0 {
@@ -103,6 +111,18 @@ func bindProgram(ifk, impl, conc, how, nI, nC int, noBinding bool) *ir.Program {
 		consumers = append(consumers, ir.FuncItem(&ir.Func{Pkg: p, Name: fmt.Sprintf("PB%d", k), Params: []*ir.Type{concT}, Out: a}))
 		rdeps = append(rdeps, a)
 	}
+	if order == 1 {
+		// consumers of the concrete type come first: the concrete type is visited before the interface
+		for i, j := 0, len(rdeps)-1; i < j; i, j = i+1, j-1 {
+			rdeps[i], rdeps[j] = rdeps[j], rdeps[i]
+		}
+	}
+	if order == 2 {
+		// one consumer takes both, concrete type first
+		both := b.Leaf(p, "Both")
+		consumers = append(consumers, ir.FuncItem(&ir.Func{Pkg: p, Name: "PBoth", Params: []*ir.Type{concT, iface}, Out: both}))
+		rdeps = append([]*ir.Type{both}, rdeps...)
+	}
 	consumers = append(consumers, ir.FuncItem(&ir.Func{Pkg: p, Name: "PR", Params: rdeps, Out: r}))
 	inj := &ir.Injector{Name: "Init", Out: r, Params: params}
 	switch {
@@ -121,7 +141,16 @@ func bindProgram(ifk, impl, conc, how, nI, nC int, noBinding bool) *ir.Program {
 		cs := &ir.Set{Pkg: p, Name: "ConcSet", Items: concItems}
 		inj.Items = append([]*ir.Item{ir.SetRef(bs), ir.SetRef(cs)}, consumers...)
 	default:
-		inj.Items = append(append([]*ir.Item{bind}, concItems...), consumers...)
+		core := append([]*ir.Item{bind}, concItems...)
+		if depth > 0 {
+			// the binding and its concrete type sit depth levels of named sets below wire.Build
+			set := &ir.Set{Pkg: p, Name: "Level0", Items: core}
+			for d := 1; d < depth; d++ {
+				set = &ir.Set{Pkg: p, Name: fmt.Sprintf("Level%d", d), Items: []*ir.Item{ir.SetRef(set)}}
+			}
+			core = []*ir.Item{ir.SetRef(set)}
+		}
+		inj.Items = append(core, consumers...)
 	}
 	return &ir.Program{Root: p, Injectors: []*ir.Injector{inj}}
 }
@@ -137,13 +166,15 @@ func checkC11(c *h.Check) {
 		x.Choose("nI", 2)
 		x.Choose("nC", 3)
 		x.Choose("nobind", 2)
+		x.Choose("depth", 4)
+		x.Choose("order", 3)
 	}, func(x *explore.Ctx) {
 		ch := x.Map()
-		prog := bindProgram(ch["iface"], ch["impl"], ch["conc"], ch["how"], 1+ch["nI"], ch["nC"], ch["nobind"] == 1)
+		prog := bindProgram(ch["iface"], ch["impl"], ch["conc"], ch["how"], 1+ch["nI"], ch["nC"], ch["nobind"] == 1, ch["depth"], ch["order"])
 		if prog == nil {
 			return
 		}
-		id := fmt.Sprintf("C11/iface=%s/impl=%s/conc=%s/how=%s/nI=%d/nC=%d/nobind=%d", c11Iface[ch["iface"]], c11Impl[ch["impl"]], c11Conc[ch["conc"]], c11Provided[ch["how"]], 1+ch["nI"], ch["nC"], ch["nobind"])
+		id := fmt.Sprintf("C11/iface=%s/impl=%s/conc=%s/how=%s/nI=%d/nC=%d/nobind=%d", c11Iface[ch["iface"]], c11Impl[ch["impl"]], c11Conc[ch["conc"]], c11Provided[ch["how"]], 1+ch["nI"], ch["nC"], ch["nobind"]) + fmt.Sprintf("/depth=%d/order=%d", ch["depth"], ch["order"])
 		cs := &h.Case{ID: id, Files: ir.Render(prog, true), Drive: true,
 			Judge: judgeProgramF(prog, true, map[string]bool{"wiring": true}, map[string]bool{"bad-bind": true, "bind-unprovided": true, "missing": true})}
 		if !c.NoteProgram(cs.Files) {
@@ -158,7 +189,7 @@ func checkC11(c *h.Check) {
 		cases = append(cases, cs)
 	})
 	results := c.JudgeAll(cases)
-	stdCoverage(c, cases, results, "full product: interface {plain, embedding another, from another package} x implementation {value receiver, pointer receiver, none, the interface itself, a wider interface} x bound type {T, *T} x how the concrete type is provided {function, struct provider, value, injector parameter, field, nested set inside the binding's set, enclosing call only, sibling set only} x consumers of I {1,2} x consumers of C {0,1,2} x {binding, no binding}. Oracle: rejected exactly when the method-set rule fails, C is I, or C is not provided in the binding's own set; accepted programs are compiled and run and every consumer of I and C must receive the same instance (pointer identity unified), C's source running once; without a binding the interface is missing. Distinct = distinct rendered source.")
+	stdCoverage(c, cases, results, "full product: interface {plain, embedding another, from another package} x implementation {value receiver, pointer receiver, none, the interface itself, a wider interface} x bound type {T, *T} x how the concrete type is provided {function, struct provider, value, injector parameter, field, nested set inside the binding's set, enclosing call only, sibling set only} x consumers of I {1,2} x consumers of C {0,1,2} x {binding, no binding} x nesting depth of the binding's set below wire.Build {0..3} x visiting order {interface first, concrete type first, one consumer of both}; implementation kinds include a type that declares the interface's own methods but not those of an embedded interface. Oracle: rejected exactly when the method-set rule fails, C is I, or C is not provided in the binding's own set; accepted programs are compiled and run and every consumer of I and C must receive the same instance (pointer identity unified), C's source running once; without a binding the interface is missing. Distinct = distinct rendered source.")
 	c.Coverage["model_verdict_classes"] = kinds.summary()
 	c.Coverage["explorer"] = map[string]interface{}{"executions": st.Executions, "mode": "full product"}
 	sampleCase(c, cases, results)
